@@ -22,7 +22,7 @@ RULE = (
     "(image, filter) pairs compared. Non-trivial = output non-empty and not identically zero; distinct = distinct cell."
 )
 ASSUMPTIONS = [
-    "L2: d in {2,3}, extents <= 5, filter extents <= 4, k,k' <= 2 (d=3: k+k' <= 2), stride/dilation <= 2",
+    "L2: d in {2,3}, extents <= 5, filter extents <= 4, k,k' <= 2 (d=3: k+k' <= 2), stride <= 2, filter dilation <= 3",
     "bilinearity is asserted on integer combinations; with it, equality on the basis table is equality for all real inputs",
     "float32 convolution of small integers is exact (|values| < 2^24 asserted)",
     "cells the library documents as unsupported (even filter side with TORUS/SAME/None padding) are disabled, not passed",
@@ -42,7 +42,7 @@ def _dims(d):
             "pad": [None, "TORUS", "SAME", "VALID", 1, [[1, 2], [0, 1]]],
             "torus": [[True, True], [False, False], [True, False], [False, True]],
             "stride": [1, 2, [1, 2]],
-            "rhs": [1, 2, [1, 2]],
+            "rhs": [1, 2, [1, 2], 3, [3, 1]],
             "lhs": [None, [2, 2], [2, 1]],
         }
     return {
@@ -54,7 +54,7 @@ def _dims(d):
         "pad": [None, "TORUS", "SAME", "VALID", 1, [[1, 2], [0, 1], [2, 0]]],
         "torus": [[True, True, True], [False, False, False], [True, False, False], [False, True, True], [True, False, True]],
         "stride": [1, 2, [1, 2, 1]],
-        "rhs": [1, 2, [1, 2, 1]],
+        "rhs": [1, 2, [1, 2, 1], 3],
         "lhs": [None, [2, 2, 2], [1, 2, 1]],
     }
 
